@@ -7,6 +7,8 @@
 import GoSecs.Lemmas.Secs1
 import GoSecs.Lemmas.Secs1Gen
 import GoSecs.Lemmas.Secs1AsmGen
+import GoSecs.Lemmas.Secs1LineGen
+import GoSecs.Lemmas.Secs1LineModel
 import GoSecs.Gen.Consts
 
 namespace GoSecs.Props.C17
@@ -108,6 +110,46 @@ theorem reset_gen (s0 : Gen.secs1_assembler) (a : Asm) :
     Gen.secs1_assembler_reset (a.toGen s0) = (a.reset.toGen s0, []) ∧
     a.reset.lastHeader = a.lastHeader ∧ a.reset.haveLast = a.haveLast :=
   ⟨Secs1.reset_gen s0 a, rfl, rfl⟩
+
+/-! ### `receiveBlock` and its readers, regenerated from secs1/line.go (effect mode with the I/O extension)
+
+  Which blocks reach the assembler at all: `receiveBlock` ACKs and returns exactly the blocks `parseBlock` accepts
+  (`receiveS`, Lemmas/Secs1LineGen.lean, is the hand-written sequential function over a script of environment answers). -/
+
+/-- `readFull(buf)`: the T1 deadline (clock + the LIVE T1) is re-armed before EACH `Read`; the bytes land in `buf` in
+    order; an error from `SetReadDeadline` or `Read` is returned at once. -/
+theorem readFull_gen (l : Gen.secs1_lineIO) (fuel : Nat) (buf : Bytes) (s : List Io.Ans) (rest : List Go.Val)
+    (e : Go.Err) (buf' : Bytes) (evs : List LnEv) (s' : List Io.Ans)
+    (h : readFullS fuel buf s = some (e, buf', evs, s')) :
+    Gen.secs1_lineIO_readFull l buf fuel (Io.enc s ++ rest) = some (e, buf', rend evs, Io.enc s' ++ rest) :=
+  Secs1.readFull_gen l fuel buf s rest e buf' evs s' h
+
+/-- `drainUntilSilence()`: Reads under a re-armed T1 deadline until one fails. -/
+theorem drainUntilSilence_gen (l : Gen.secs1_lineIO) (fuel : Nat) (s : List Io.Ans) (rest : List Go.Val)
+    (evs : List LnEv) (s' : List Io.Ans) (h : drainS fuel s = some (evs, s')) :
+    Gen.secs1_lineIO_drainUntilSilence l fuel (Io.enc s ++ rest) = some (rend evs, Io.enc s' ++ rest) :=
+  Secs1.drain_gen l fuel s rest evs s' h
+
+/-- **`receiveBlock`**: length byte under T2 (timeout → NAK, ErrT2Timeout, NO drain); length outside 10..254 → drain
+    until silence, THEN NAK, ErrInvalidLength; `length+2` bytes under T1 (error → NAK, ErrT1Timeout, no drain);
+    `parseBlock` (length, checksum) rejects → drain, THEN NAK, the parse error; otherwise ACK and the parsed block. -/
+theorem receiveBlock_gen (l : Gen.secs1_lineIO) (fuel : Nat) (s : List Io.Ans) (rest : List Go.Val)
+    (ob : Option Block) (err : Go.Err) (evs : List LnEv) (s' : List Io.Ans)
+    (h : receiveS fuel s = some (ob, err, evs, s')) :
+    Gen.secs1_lineIO_receiveBlock l fuel (Io.enc s ++ rest) = some (blkGen ob, err, rend evs, Io.enc s' ++ rest) :=
+  Secs1.receive_gen l fuel s rest ob err evs s' h
+
+/-- **What reaches the assembler**: for every byte string that arrives after our EOT (and then silence), the regenerated
+    `receiveBlock` returns a block iff the model's `receiveBytes` accepts it — i.e. the length byte is in 10..254, all
+    `length+2` bytes arrive, and `parseBlock` (length, checksum) accepts — answers ACK in that case and NAK in every
+    other, and drains the line before the NAK exactly for a bad length and a parse error (`recvEvs`). -/
+theorem receiveBlock_source_is_model (env : Env) (fuel : Nat) (l : Gen.secs1_lineIO) (bs : Bytes) (rest : List Go.Val) :
+    Gen.secs1_lineIO_receiveBlock l (fuel + 2) (Io.enc (recvScript env bs) ++ rest) =
+      some (blkGen (receiveBytes bs).blockOpt, (receiveBytes bs).err, rend (recvEvs env bs), rest) ∧
+    writes (recvEvs env bs) = [(receiveBytes bs).answer] := by
+  have h := receive_model env fuel bs []
+  have := Secs1.receive_gen l (fuel + 2) _ rest _ _ _ [] h
+  exact ⟨by simpa using this, recvEvs_writes env bs⟩
 
 /-! ## Outbound: blocks on the line -/
 
